@@ -87,9 +87,8 @@ def r_reader_state(prog, tier):
                               line=cfg.nodes[outside[0][0]].lineno))
                 continue
             init = unparse(outside[-1][1])
-            resets = [n.id for n in cfg.eval_nodes() if n.kind == 'stmt' and isinstance(n.ast, ast.Assign)
-                      and len(n.ast.targets) == 1 and unparse(n.ast.targets[0]) == name
-                      and unparse(n.ast.value) == init and main in n.loops]
+            resets = [nid for (nid, v) in name_defs(f, name) if isinstance(v, ast.AST) and unparse(v) == init
+                      and main in cfg.nodes[nid].loops]
             ok = False
             why = 'after the yield, the next sentence starts with whatever `%s` held at the end of this one ' \
                   '(initial value `%s` is not restored on every path)' % (name, init)
@@ -141,9 +140,23 @@ def r_reader_state(prog, tier):
             incs = [n for (n, v) in defs if isinstance(v, tuple) and v[0] == 'aug' and unparse(v[1]) == '%s += 1' % c]
             ok = len(consts) == 1 and consts[0].value == 1 and len(incs) == 1 and cfg.always_with(u.id, incs[0]) \
                 and cfg.same_loop(u.id, incs[0]) and cfg.dominates(u.id, incs[0])
+            verdict, why = (True, 'initialised to 1 per call, `+= 1` after each use') if ok else (None, 'numbering idiom not recognised')
+            enum = [v for (_, v) in defs if isinstance(v, tuple) and v[0] == 'iter' and isinstance(v[1], ast.Call)
+                    and unparse(v[1].func) == 'enumerate']
+            if not ok and enum and len(defs) == 1:
+                e = enum[0][1]
+                st = e.args[1] if len(e.args) > 1 else next((k.value for k in e.keywords if k.arg == 'start'), None)
+                if isinstance(st, ast.Constant):
+                    verdict = st.value == 1
+                    why = 'enumerate(..., %r)' % st.value
+                elif st is None:
+                    verdict, why = False, 'enumerate() without start: tokens are numbered from 0'
+            elif not ok and consts and any(c_.value != 1 for c_ in consts if isinstance(c_.value, int)):
+                verdict, why = False, 'token counter starts at %r' % consts[0].value
+            elif not ok and consts and not incs:
+                verdict, why = False, 'token counter is never incremented'
             obs.append(Ob('R-COUNTER', f.fq, 'token number `%s` comes from a counter that starts at 1 and advances by one '
-                          'per token' % unparse(u.ast), ok, 'initialised to 1 per call, `+= 1` after each use' if ok else
-                          'counter shape changed', construct='counter:' + unparse(u.ast), line=u.lineno))
+                          'per token' % unparse(u.ast), verdict, why, construct='counter:' + unparse(u.ast), line=u.lineno))
     # export: per-sentence tables are created inside the sentence block
     f = prog.func('treeinput', 'export')
     cfg = f.cfg
@@ -322,6 +335,9 @@ class ReaderModel(object):
             return e.attr
         if isinstance(e, ast.Subscript) and unparse(e).startswith('queue[') and ".data['" in unparse(e):
             return 'COPY(%s)' % const_str(e.slice)
+        if isinstance(e, ast.Subscript) and isinstance(e.value, ast.Attribute) and e.value.attr == 'data' \
+                and isinstance(e.value.value, ast.Name) and isinstance(env['locals'].get(e.value.value.id), tuple):
+            return 'COPY(%s)' % const_str(e.slice)
         if isinstance(e, ast.UnaryOp) and isinstance(e.op, ast.USub):
             return -self.value(e.operand, env)
         if isinstance(e, ast.BinOp) and isinstance(e.op, (ast.Add, ast.Sub)):
@@ -424,6 +440,10 @@ class ReaderModel(object):
                     return
                 if t.id in (self.tokvar, self.clsvar):
                     raise Unrecognised('brackets: the loop variables are reassigned')
+                if isinstance(st.value, ast.Subscript) and unparse(st.value.value) == 'queue':
+                    # an alias for an element of the queue: stores through it are stores on that element
+                    env['locals'][t.id] = ('QUEUE', self._qidx(st.value, env))
+                    return
                 env['locals'][t.id] = self.value(st.value, env)
                 return
             if isinstance(t, ast.Attribute) and t.attr == 'parent' and isinstance(t.value, ast.Subscript) \
@@ -438,9 +458,14 @@ class ReaderModel(object):
                 k = const_str(t.slice)
                 env['acts'].append(('SET', i, k, self.value(st.value, env)))
                 return
-            if isinstance(t, ast.Subscript) and isinstance(t.value, ast.Attribute) and t.value.attr == 'data':
-                # stores on other nodes (disco post-processing) are outside the model
+            if isinstance(t, ast.Subscript) and isinstance(t.value, ast.Attribute) and t.value.attr == 'data' \
+                    and isinstance(t.value.value, ast.Name) and isinstance(env['locals'].get(t.value.value.id), tuple) \
+                    and env['locals'][t.value.value.id][0] == 'QUEUE':
+                i = env['locals'][t.value.value.id][1]
+                env['acts'].append(('SET', i, const_str(t.slice), self.value(st.value, env)))
                 return
+            if isinstance(t, ast.Subscript) and isinstance(t.value, ast.Attribute) and t.value.attr == 'data':
+                raise Unrecognised('brackets: store `%s` on a node the model does not track' % unparse(st)[:60])
         if isinstance(st, ast.For):
             # option-governed post-processing (replace_parens); no control variable may be touched
             for s in ast.walk(st):
@@ -652,9 +677,17 @@ def r_automaton(prog, tier):
                   and closed == 'OK', 'raise when level > 0 after the last token, nothing otherwise' if openres == 'RAISE'
                   and closed == 'OK' else 'end of input with an open group: %s; with all groups closed: %s (a truncated '
                   'last tree is silently dropped)' % (openres, closed), construct='a3-reader', line=f.node.lineno))
-    obs.extend(_lexer_rules(prog))
+    try:
+        obs.extend(_lexer_rules(prog))
+    except Unrecognised as e:
+        obs.append(Ob('R-AUTOMATON/LEXER', 'treeinput.bracket_lexer', 'the bracket lexer conforms to the three character classes',
+                      None, str(e), construct='lexer-unrecognised'))
     # ---- A4 discobracket index convention
-    obs.extend(_disco_rules(prog))
+    try:
+        obs.extend(_disco_rules(prog))
+    except Unrecognised as e:
+        obs.append(Ob('R-AUTOMATON/A4', 'treeinput.brackets', 'discobracket index convention', None, str(e),
+                      construct='disco-unrecognised'))
     # ---- FIELDS: whoever sets a label sets edge and morph as well
     seen_sets = {}
     for cls in CLASSES:
